@@ -182,7 +182,7 @@ func c08CheckCollector(c *rt.C, db *DB, live int, witness interface{}) {
 	if open != 0 || retired != 0 {
 		c.Violate("snapshot-lists", fmt.Sprintf("all handles closed: %d snapshots remain in the open list and %d in the retired list after GC()", open, retired), witness)
 	}
-	w := Walk(db.N.VerifStore(), nitroInsCmp(db.KV), nitro.ItemSize, 1<<20)
+	w := Walk(db.N.VerifStore(), db.InsCmp(), nitro.ItemSize, 1<<20)
 	if w.Level0Linked != live {
 		c.Violate("node-count", fmt.Sprintf("all handles closed and collected: %d nodes remain, %d items are live", w.Level0Linked, live), witness)
 	}
